@@ -165,6 +165,12 @@ func TestC08FailedTx(t *testing.T) {
 							rec.Label("candidate:vault-nested-call-gas")
 						}
 					}
+					if ci == 2 && strings.Contains(candProfile, "gov") {
+						if pd := g.GenRefusedParameterChange(t); pd != nil {
+							d = pd
+							rec.Label("candidate:refused-parameter-change")
+						}
+					}
 					if d.Mutated == "system-method" {
 						// a user-signed system method can never be part of a block that validators accept (C10 covers it)
 						rec.Discard("system-method-cannot-be-in-an-accepted-block")
